@@ -47,6 +47,42 @@ impl RegistrationToken {
     }
 }
 
+#[cfg(calloop_verif)]
+impl RegistrationToken {
+    pub(crate) fn verif_inner(&self) -> TokenInner {
+        self.inner
+    }
+}
+
+#[cfg(calloop_verif)]
+impl<'l, Data> LoopHandle<'l, Data> {
+    /// Read-only statistics for verification harnesses.
+    pub fn verif_stats(&self) -> crate::verif::LoopStats {
+        let (wheel, wheel_counter) = self.inner.poll.borrow().timers.borrow().verif_entries();
+        let pending = self.inner.pending_action.get();
+        crate::verif::LoopStats {
+            slots: self.inner.sources.borrow().verif_slots(),
+            lifecycle: self
+                .inner
+                .sources_with_additional_lifecycle_events
+                .borrow()
+                .values
+                .iter()
+                .map(crate::verif::registration_token_key)
+                .collect(),
+            wheel,
+            wheel_counter,
+            pending_action: match pending {
+                PostAction::Continue => 0,
+                PostAction::Reregister => 1,
+                PostAction::Disable => 2,
+                PostAction::Remove => 3,
+            },
+            idles: self.inner.idles.borrow().len(),
+        }
+    }
+}
+
 pub(crate) struct LoopInner<'l, Data> {
     pub(crate) poll: RefCell<Poll>,
     // The `Option` is used to keep slots of the slab occupied, to prevent id reuse
